@@ -107,6 +107,7 @@ def planted_three_relevant_worlds(rng):
 
 
 def run_shard(ctx):
+    gg.ALLOW_ODD = True  # node names that are not Python identifiers are node names like any other
     mon_cf.install_idcstar()
     mon_dsep.install()
     mon_cf.CONFIG.update(K={"quick": 2, "thorough": 3}[ctx.tier])
